@@ -135,7 +135,9 @@ def judge_fitted(c, rec):
             rec.violation(fam + "/warnings-differ", c, "%s -> %s" % (wtriples(m.warnings)[:3], wtriples(m2.warnings)[:3]))
         if wtriples(m2.disqualification) != wtriples(m.disqualification):
             rec.violation(fam + "/disqualification-differs", c, "%s -> %s" % (wtriples(m.disqualification)[:3], wtriples(m2.disqualification)[:3]))
-    # 1. predictions
+    # 1. predictions (other, unrelated model objects exist in every real process: build some with other calendar maps first)
+    if fam in ("daily", "billing"):
+        zoo.decoys(fam)
     doc = json.loads(js)
     outside = False
     sloped = True
@@ -216,6 +218,7 @@ def judge_docs(c, rec):
         rec.violation(key + "/timezone-lost", c, "%r" % m2.baseline_timezone)
     if wtriples(m2.disqualification) != wtriples(c.get("dq", ())) or wtriples(m2.warnings) != wtriples(c.get("warns", ())):
         rec.violation(key + "/warnings-lost", c, "warnings/disqualification of the document not restored")
+    zoo.decoys("billing" if fam == "billing" else "daily")  # unrelated model objects with other calendar maps
     T = gp.sweep_temperatures(c, step=2.0)
     idx = pd.date_range("2019-01-01", periods=len(T), freq="D", tz=c["tz"])
     rng = np.random.default_rng(len(T))
